@@ -901,6 +901,107 @@ func c20Post(c *Check) {
 			c.Fail("R5", "unicode-classification", token.NoPos, "undecided: expected the character classification of directive names and of the lexer")
 		}
 	}
+	// the expansions walk the whole tree: each of them descends into the children of every node it handles
+	if r := c.need("R5", cfgparserRel, "parseContext", "expandMacros"); r != nil {
+		info := r.Info
+		self := r.FI.Obj
+		var nodeP types.Object
+		if ps := r.FI.Decl.Type.Params.List; len(ps) == 1 && len(ps[0].Names) == 1 {
+			nodeP = info.Defs[ps[0].Names[0]]
+		}
+		isChildren := func(e ast.Expr) bool {
+			sx, ok := ast.Unparen(e).(*ast.SelectorExpr)
+			return ok && sx.Sel.Name == "Children" && objOf(info, sx.X) == nodeP && nodeP != nil
+		}
+		msg := "expandMacros does not descend into the children of the node (macros inside blocks stay unexpanded)"
+		for _, l := range elemLoops(info, r.FI.Decl.Body, isChildren) {
+			l := l
+			descends := false
+			for _, call := range callsIn(l.Body) {
+				if callee(info, call) == self && len(call.Args) == 1 {
+					a := ast.Unparen(call.Args[0])
+					if u, ok := a.(*ast.UnaryExpr); ok && u.Op == token.AND {
+						a = ast.Unparen(u.X)
+					}
+					if l.IsElem(a) {
+						descends = true
+					}
+				}
+			}
+			if !descends || !l.Whole {
+				continue
+			}
+			w := r.F.World(func(atom ast.Expr) (bool, bool) {
+				if be, ok := ast.Unparen(atom).(*ast.BinaryExpr); ok && (be.Op == token.EQL || be.Op == token.NEQ) && isNilIdent(info, be.Y) && isChildren(be.X) {
+					return be.Op == token.NEQ, true
+				}
+				return false, false
+			})
+			if path, f := r.F.Reach(Query{From: r.Entry(), Inclusive: true, Target: r.IsSuccessReturn, Avoid: isPt(r.F.LoopDone(l)), AvoidEdge: w}); f {
+				msg = "expandMacros can succeed without having expanded the children of a block: " + r.F.Describe(path)
+			} else {
+				msg = ""
+			}
+			// an error of the recursive call is returned
+			for _, pt := range r.F.Points() {
+				for _, call := range callsAt(pt.Node()) {
+					if callee(info, call) == self && posIn(l.Body, call.Pos()) {
+						if found, wv, decided := r.OnErr(pt, call, false, func(q Pt) bool { return r.IsSuccessReturn(q) || r.F.IterEnd(l)(q) && !r.F.IsExitPt(q) }, nil); !decided || found {
+							msg = "an error while expanding a child is dropped: " + wv
+						}
+					}
+				}
+			}
+		}
+		c.Hold("R5", "expandMacros:descends", r.FI.Decl.Pos(), msg == "", msg)
+	}
+	if r := c.need("R5", cfgparserRel, "", "expandEnvironment"); r != nil {
+		info := r.Info
+		self := r.FI.Obj
+		var nodesP types.Object
+		if ps := r.FI.Decl.Type.Params.List; len(ps) == 1 && len(ps[0].Names) == 1 {
+			nodesP = info.Defs[ps[0].Names[0]]
+		}
+		msg := "expandEnvironment does not visit the nodes it is given"
+		for _, l := range elemLoops(info, r.FI.Decl.Body, func(e ast.Expr) bool { return objOf(info, e) == nodesP && nodesP != nil }) {
+			l := l
+			if !l.Whole {
+				continue
+			}
+			// in every iteration: the children are replaced by their expansion, name and arguments go through the replacer
+			recurse := func(pt Pt) bool {
+				return nodeAssigns(pt.Node(), func(lhs, rhs ast.Expr) bool {
+					sx, ok := ast.Unparen(lhs).(*ast.SelectorExpr)
+					if !ok || sx.Sel.Name != "Children" || rhs == nil {
+						return false
+					}
+					call, ok := ast.Unparen(rhs).(*ast.CallExpr)
+					if !ok || callee(info, call) != self || len(call.Args) != 1 {
+						return false
+					}
+					ax, ok := ast.Unparen(call.Args[0]).(*ast.SelectorExpr)
+					return ok && ax.Sel.Name == "Children" && sameExpr(ax.X, sx.X)
+				})
+			}
+			msg = ""
+			if path, f := r.F.Reach(Query{From: r.F.LoopBodyStart(l), Inclusive: true, Target: r.F.IterEnd(l), Avoid: recurse}); f {
+				msg = "a node is handled without expanding the environment placeholders of its children: " + r.F.Describe(path)
+			}
+			for _, fld := range []string{"Name", "Args"} {
+				fld := fld
+				sets := func(pt Pt) bool {
+					return nodeAssigns(pt.Node(), func(lhs, _ ast.Expr) bool {
+						sx, ok := ast.Unparen(lhs).(*ast.SelectorExpr)
+						return ok && sx.Sel.Name == fld
+					})
+				}
+				if path, f := r.F.Reach(Query{From: r.F.LoopBodyStart(l), Inclusive: true, Target: r.F.IterEnd(l), Avoid: sets}); f && msg == "" {
+					msg = "a node is handled without expanding the environment placeholders of its " + fld + ": " + r.F.Describe(path)
+				}
+			}
+		}
+		c.Hold("R5", "expandEnvironment:descends", r.FI.Decl.Pos(), msg == "", msg)
+	}
 	if r := c.need("R5", cfgparserRel, "parseContext", "expandImports"); r != nil {
 		info := r.Info
 		self := r.FI.Obj
